@@ -53,7 +53,7 @@ impl Property for C16 {
         match tier {
             Tier::Quick => Budget {
                 seconds: 25,
-                max_cases: 12_000,
+                max_cases: 9_000,
             },
             Tier::Thorough => Budget {
                 seconds: 600,
@@ -106,6 +106,25 @@ impl Property for C16 {
                 v.push(b'\n');
                 case.pieces.insert(at, Piece::raw(v));
             }
+        }
+        if !big && rng.chance(1, 10) {
+            // a string, or a member name, of 260..1500 bytes (escapes and multi-byte characters
+            // in it): a reader that moves long literals in bulk meets the fault inside one
+            let n = rng.range(260, 1500);
+            let mut t = String::with_capacity(n + 8);
+            while t.len() < n {
+                t.push_str(*rng.pick(&["a", "b", "xyz", "é", "日", "\\n", "\\\"", "\\u00e9", " ", "0"]));
+            }
+            let v = match rng.below(3) {
+                0 => format!("\"{t}\""),
+                1 => format!("{{\"id\":7,\"s\":\"{t}\"}}"),
+                _ => format!("{{\"{t}\":1}}"),
+            };
+            let at = rng.below(case.pieces.len() + 1);
+            case.pieces.insert(at, Piece::gap(vec![b'\n']));
+            case.pieces.insert(at, Piece::rec(v.into_bytes(), 900));
+            case.pieces.insert(at, Piece::gap(vec![b'\n']));
+            case.set("long_literal", 1);
         }
         if !big && matches!(family, "sweep-read" | "sweep-write") && rng.chance(1, 30) {
             // a value nested far deeper than a test would write (and far less deep than the
